@@ -54,6 +54,10 @@ func draft(kind string, n int) string {
 	switch kind {
 	case "parse-rejected":
 		return "zq = " + rep("(", n) + " 1 + ; return zq;"
+	case "parse-rejected-function-header":
+		return []string{"function zf(a, b", "function (a) { return a; }", "function zf(a) return 1;", "function zf(a { return a; }", "function zf(a, ) { local b; }", "zq = 1; function zf("}[n%6]
+	case "parse-rejected-in-ternary":
+		return []string{"zq = t ? 1 ;", "zq = t ? (1 + ) : 2;", "zq = t ? (t ? 1 : 2) : 3;", "zq = t ? 1 : ;", "function zf(a) { return a ? [1, : 2; }", "zq = t ? " + rep("(", 50) + "1 : 2;"}[n%6]
 	case "lexer-rejected":
 		return "zq = 1; " + rep("if ( t ) { ", n) + "zr = \"unterminated" + rep(" }", n)
 	case "compile-rejected":
@@ -83,7 +87,7 @@ func draft(kind string, n int) string {
 	return "return 1;"
 }
 
-var prepStepKinds = []string{"parse-rejected", "lexer-rejected", "compile-rejected", "compile-rejected-in-blocks", "compile-rejected-in-function",
+var prepStepKinds = []string{"parse-rejected", "parse-rejected-in-ternary", "parse-rejected-function-header", "lexer-rejected", "compile-rejected", "compile-rejected-in-blocks", "compile-rejected-in-function",
 	"compile-rejected-end-of-chain", "too-large", "too-deep", "chain-too-long", "accepted", "accepted-fault", "accepted-reads-members", "accepted-reads-members",
 	"compile-rejected-naming-members"}
 
@@ -128,16 +132,21 @@ var prepFinals = map[string]func(n int) string{
 	// small scripts that ask for what an earlier script defined (n is ignored)
 	"calls-leftover-function": func(n int) string { return "return zg();" },
 	"redefines-function":      func(n int) string { return "function zf(a) { return \"new\"; }\nreturn [zf(1), zf(2)];" },
+	"uses-ternary":            func(n int) string { return "function zt(a) { local b; b = a ? 1 : 2; return b; }\nreturn [t ? x : 0, zt(t), (x == 7) ? \"y\" : \"n\"];" },
+	"local-outside-function":  func(n int) string { return "local zl; return true;" },
+	"nested-ternary":          func(n int) string { return "return t ? (t ? 1 : 2) : 3;" },
 	"reads-members":           func(n int) string { return "return [Name, Logins, Secret, \"lit\", \"other\", 70000, 80000];" },
 	"same-constants":          func(n int) string { return "return [1, 2.5, \"a\", \"zq\", 70000, 70001, \"zg\", \"stale\"];" },
 }
 
 var prepFinalNames = []string{"parentheses", "unary-minus", "if-nesting", "array-nesting", "sum-chain", "and-chain", "statements", "function-body",
-	"else-if-chain", "constants", "calls-leftover-function", "redefines-function", "same-constants", "reads-members"}
+	"else-if-chain", "constants", "calls-leftover-function", "redefines-function", "same-constants", "reads-members", "uses-ternary", "local-outside-function", "nested-ternary"}
 
 // upper bounds for the bisection (a fresh evaluator refuses these sizes)
 var prepFinalMax = map[string]int{"parentheses": 10400, "unary-minus": 10400, "if-nesting": 10400, "array-nesting": 10400, "sum-chain": 40000,
 	"and-chain": 40000, "statements": 22000, "function-body": 22000, "else-if-chain": 10400, "constants": 3000}
+
+var groupingFinals = map[string]bool{"parentheses": true, "unary-minus": true, "sum-chain": true, "and-chain": true, "uses-ternary": true, "nested-ternary": true}
 
 var prepVars = map[string]lang.Value{"x": lang.Int(7), "t": lang.Bool(true), "one": lang.Int(1)}
 
@@ -193,6 +202,25 @@ func boundary(shape string, noOpt bool) int {
 	return lo
 }
 
+var (
+	verdictMu    sync.Mutex
+	verdictCache = map[string]bool{}
+)
+
+// freshVerdict: accepted or refused, as a fresh evaluator said when the
+// process met this script for the first time.
+func freshVerdict(shape string, size int, noOpt bool, script string) bool {
+	key := fmt.Sprint(shape, size, noOpt)
+	verdictMu.Lock()
+	defer verdictMu.Unlock()
+	if v, ok := verdictCache[key]; ok {
+		return v
+	}
+	v := freshAccepts(script, noOpt)
+	verdictCache[key] = v
+	return v
+}
+
 type prepAnswer struct {
 	accepted bool
 	program  string
@@ -240,10 +268,14 @@ func runPrepHist(c *PrepHistCase) (classes []string, err error) {
 	final := build(c.FinalSize)
 	fr, cancelF := prepRunner(final)
 	defer cancelF()
+	// what a fresh evaluator says about the last script before anything else
+	// happens (bisection included) ...
+	early := freshVerdict(c.FinalShape, c.FinalSize, c.NoOpt, final)
 	want, pan := prepAnswerOf(fr, c.NoOpt)
 	if pan != nil {
 		return nil, fmt.Errorf("a fresh evaluator panicked on the last script: %v", pan)
 	}
+	_ = early
 	first := "return 1;"
 	if len(c.Steps) > 0 {
 		first = draft(c.Steps[0].Kind, c.Steps[0].N)
@@ -296,6 +328,11 @@ func runPrepHist(c *PrepHistCase) (classes []string, err error) {
 			}
 		}
 	}
+	// ... is what a fresh evaluator says after the history (the process as a
+	// whole has no memory of refused scripts either)
+	if late := freshAccepts(final, c.NoOpt); late != early {
+		return classes, fmt.Errorf("last script (%s, size %d): a fresh evaluator's Prepare said accepted=%v when this process first met the script and says accepted=%v after the history on another evaluator", c.FinalShape, c.FinalSize, early, late)
+	}
 	r.E.Script = final
 	got, pan := prepAnswerOf(r, c.NoOpt)
 	if pan != nil {
@@ -326,7 +363,7 @@ func runPrepHist(c *PrepHistCase) (classes []string, err error) {
 }
 
 func init() {
-	for _, p := range []string{"C19", "C13", "C08", "C04"} {
+	for _, p := range []string{"C19", "C13", "C08", "C04", "C12"} {
 		replayers[p+"/prephist"] = func(raw []byte) error {
 			var c PrepHistCase
 			if err := json.Unmarshal(raw, &c); err != nil {
@@ -345,6 +382,9 @@ func runPrepareHistories(t *testing.T, prop string) {
 	// the bisections cost seconds: each process looks after some of the shapes
 	var mine []string
 	for i, n := range prepFinalNames {
+		if prop == "C12" && !groupingFinals[n] {
+			continue // grouping: parentheses, prefix chains, operator chains, ternaries
+		}
 		if i%sn == si%sn || prepFinalMax[n] == 0 {
 			mine = append(mine, n)
 		}
@@ -360,6 +400,8 @@ func runPrepareHistories(t *testing.T, prop string) {
 			case "compile-rejected", "compile-rejected-in-blocks", "compile-rejected-in-function", "parse-rejected", "lexer-rejected", "compile-rejected-naming-members":
 				st.N = rapid.SampledFrom([]int{0, 1, 2, 40, 3000, 9000}).Draw(rt, "n")
 				st.Run = rapid.Bool().Draw(rt, "run")
+			case "parse-rejected-in-ternary", "parse-rejected-function-header":
+				st.N = rapid.IntRange(0, 5).Draw(rt, "n")
 			case "accepted-fault":
 				st.N = rapid.SampledFrom([]int{0, 1, 50, 9000, 20000}).Draw(rt, "n")
 				st.Run = true
@@ -395,3 +437,4 @@ func TestC19PrepareHistories(t *testing.T) { runPrepareHistories(t, "C19") }
 func TestC13PrepareHistories(t *testing.T) { runPrepareHistories(t, "C13") }
 func TestC08PrepareHistories(t *testing.T) { runPrepareHistories(t, "C08") }
 func TestC04PrepareHistories(t *testing.T) { runPrepareHistories(t, "C04") }
+func TestC12PrepareHistories(t *testing.T) { runPrepareHistories(t, "C12") }
